@@ -16,6 +16,8 @@ def run(r):
     thorough = r.tier == 'thorough'
     r.model_check('PropagateRelMC', 'PropagateRel_thorough.cfg' if thorough else 'PropagateRel.cfg', timeout=3000)
     r.exhaustive = True
+    from vlib import apalache
+    apalache.inductive(r, 'PropagateRelInd')      # the same algebra without bounds: Consistent is an inductive invariant
     s = tlc.simulate('PropagateRelMC', 'PropagateRel_sim.cfg', 'C03/sim', num=(4000 if thorough else 640), depth=(10 if thorough else 7),
                      seed=r.seed + 3)
     r.transitions += s.generated
